@@ -117,6 +117,33 @@ def members_of(lex):
     return out
 
 
+def twin_of(lex, v):
+    T = copy.deepcopy(lex)
+    T['version'] = 'twin'
+    T['label'] = 'Twin'
+    for ent in T.get('entries', []):
+        for f in ent.get('frames', []):
+            f['subcategorizationFrame'] += ' (twin)'
+        ent['lemma']['writtenForm'] += ' twin'
+    for k, f in enumerate(T.get('frames', [])):
+        f['subcategorizationFrame'] += ' (twin)'
+    if v != '1.0':
+        T.setdefault('frames', []).append({'id': lex['id'] + '-frT', 'subcategorizationFrame': 'Twin only'})
+        for ent in T.get('entries', []):
+            for s_ in ent.get('senses', []):
+                s_['subcat'] = s_.get('subcat', []) + [lex['id'] + '-frT']
+    else:
+        for ent in T.get('entries', []):
+            if ent.get('senses'):
+                ent.setdefault('frames', []).append({'subcategorizationFrame': 'Twin only'})
+    for ss in T.get('synsets', []):
+        for dfn in ss.get('definitions', []):
+            dfn['text'] += ' twin'
+        for x in ss.get('examples', []):
+            x['text'] += ' twin'
+    return T
+
+
 def project_T(T, e):
     """what a transcript may keep when the data went through an LMF-e file"""
     T = copy.deepcopy(T)
@@ -146,10 +173,18 @@ def check(case):
     env.fresh_db()
     db1 = env.db_path().parent
     try:
+        if case.get('twin') == 'before':
+            T0 = twin_of(R['lexicons'][0], case['doc']['v'])
+            env.add(env.write_file('twin0.xml', xmlw.serialize({'lmf_version': case['doc']['v'], 'lexicons': [T0]}), d))
         env.add(env.write_file('src.xml', xmlw.serialize(R, raw_text=b['raw_text']), d))
         if case.get('ext'):
             X = docs.extension(case['doc']['v'], R['lexicons'][0], flags=('annot',))
             env.add(env.write_file('ext.xml', xmlw.serialize({'lmf_version': case['doc']['v'], 'lexicons': [X]}), d))
+        if case.get('twin') == 'after':
+            # another installed version of the same lexicon (same entity ids, other content and
+            # other frames on the same senses) must not leak into the export
+            T = twin_of(R['lexicons'][0], case['doc']['v'])
+            env.add(env.write_file('twin.xml', xmlw.serialize({'lmf_version': case['doc']['v'], 'lexicons': [T]}), d))
         specs = [spec_of(x) for x in R['lexicons']]
         with warnings.catch_warnings():
             warnings.simplefilter('ignore')
@@ -238,6 +273,7 @@ def check(case):
                                   f'all {mem_src.get(ss["id"], [])}'))
         # (b) differential re-import
         if not case.get('ext'):
+            env.close_pool()
             env.fresh_db()
             db2 = env.db_path().parent
             ok, err = runner.guarded(env.add, out)
@@ -284,6 +320,9 @@ def space(tier, seed):
         if v != '1.0':
             for e in ('1.0', v):
                 cases.append({'doc': {'v': v, 'kind': 'feat', 'base': 'M', 'delta': []}, 'e': e, 'ext': True})
+        for e in docs.VERSIONS:
+            for tw in ('before', 'after'):
+                cases.append({'doc': {'v': v, 'kind': 'feat', 'base': 'M', 'delta': []}, 'e': e, 'twin': tw})
     pvers = docs.VERSIONS if tier == 'thorough' else ['1.3']
     for v in pvers:
         for c in docgen.payload_space(v):
